@@ -26,7 +26,7 @@ COMPONENTS = {
 }
 EXPECTED_PROBES = ('abandoned_handshake', 'unrouted', 'no_responder', 'mw_raised', 'script_raised',
                    'op_before_accept', 'op_after_close', 'denied', 'send_failed', 'custom_handler_called',
-                   'invalid_close_code', 'wrong_payload_type')
+                   'invalid_close_code', 'wrong_payload_type', 'send_refused')
 ASSUMPTIONS = (
     'ready callbacks run FIFO as asyncio guarantees; only environment timing varies',
     'when several error conditions hold at once any of their documented errors is accepted',
@@ -218,6 +218,16 @@ def check_session(ctx, h, script, app_cfg, cfg, client):
         flag0 = o.pulled_before and N > 0 and st != 'H'
         flag1 = o.pulled_after and N > 0 and st != 'H'
         fail = o.send_failed_during
+        if o.refused_during:
+            # the server refused this one event with an error of its own; nothing was delivered and
+            # the connection is as it was: the error reaches the caller, the session goes on
+            ctx.probe('send_refused')
+            if got != 'ServerRefused':
+                ctx.violate('ws.op_error', 'op %r: the server refused the event, the application saw %s' % (
+                    list(map(c18._j, op)), got), op=kind, got='other', after_invalid_close=False)
+                model_broken = True
+                break
+            continue
         if kind == 'accept':
             if st != 'H' or flag0:
                 allowed.add('OperationNotAllowed')
@@ -501,6 +511,8 @@ def run(ctx):
     elif fm == 2:
         a = ch.draw(6, 'fail_at')
         cfg['fail_send_at'] = [a, a + 1 + ch.draw(3, 'fail_at2')]
+    if fm == 0 and ch.draw(6, 'server_refuses_one_event') == 5:
+        cfg['refuse_send_at'] = [ch.draw(5, 'refuse_at')]
     if ch.draw(5, 'server_rejects_1011') == 4:
         cfg['reject_close_codes'] = [1011]     # Autobahn/Daphne refuse the reserved-for-endpoints code
     cfg['max_steps'] = 3000
